@@ -4,7 +4,7 @@ For each input x and each f (every public rule, format_code with option sets):  
   [] (fresh process), [x], [y, x], [x, y, x], [x, 120 unrelated parses, x]  (the last one evicts the 100-entry parse cache while the
   100000-entry trace/validity caches keep their entries)
 are all equal; and after every run each entry of the parse / template caches still equals a fresh build from its key
-(cache faithfulness: ast.dump(core.parse(s)) == ast.dump(ast.parse(s))).
+(cache faithfulness: ast.dump(core.parse(s), include_attributes=True) == ast.dump(ast.parse(s), include_attributes=True): contexts and positions included).
 """
 import ast
 import random
@@ -23,11 +23,11 @@ def parse_cache_faithful(texts):
     bad = []
     for t in texts:
         try:
-            fresh = ast.dump(ast.parse(t))
+            fresh = ast.dump(ast.parse(t), include_attributes=True)
         except SyntaxError:
             continue
         try:
-            cached = ast.dump(core.parse(t))
+            cached = ast.dump(core.parse(t), include_attributes=True)
         except Exception as ex:  # noqa: BLE001
             bad.append((t, f"core.parse raised {type(ex).__name__}"))
             continue
